@@ -84,6 +84,25 @@ fn independent_layouts(t: TC, g: bool, xs: &[f32]) -> Result<Vec<(f32, f32)>, (u
             }
         }
     }
+    // the same placed pixels with out-of-range / special pixels in between: a sample in [0,1] must
+    // convert the same whatever else the image holds
+    let specials: [[f32; 3]; 4] = [[-0.3, 1.7, 2.5], [1e30, -1e30, 0.0], [f32::NAN, 0.5, f32::INFINITY], [-0.0, 0.0, 1e-40]];
+    let mut mixed = Vec::with_capacity(n + n / 4 + 1);
+    let mut pos = Vec::with_capacity(n);
+    for i in 0..n {
+        if i % 4 == 1 {
+            mixed.push(specials[(i / 4) % 4]);
+        }
+        pos.push(mixed.len());
+        mixed.push(placed[i]);
+    }
+    let out_m = conv_px(t, g, &mixed).map_err(|e| (0, e))?;
+    for i in 0..n {
+        let (a, b) = (out_m[pos[i]], out[i]);
+        if (0..3).any(|k| a[k].to_bits() != b[k].to_bits()) {
+            return Err((i, format!("the pixel with {:e} in slot {} converts to {} in an image that also holds out-of-range / special pixels, but to {} without them", xs[i], i % 3, px3s(a), px3s(b))));
+        }
+    }
     // three distant values per pixel
     let distant: Vec<[f32; 3]> = (0..n).map(|i| [xs[i], xs[(i + n / 3) % n], xs[(i + 2 * n / 3) % n]]).collect();
     let out = conv_px(t, g, &distant).map_err(|e| (0, e))?;
